@@ -812,7 +812,11 @@ func c18Value(r *kit.Rand, base float64) float64 {
 	return v
 }
 
-func c18GenBuilder(r *kit.Rand, i int) c18Case {
+func c18GenBuilder(r *kit.Rand, i int) c18Case { return c18GenBuilderP(r, i, 0) }
+
+// c18GenBuilderP: noBase is the probability that a trial gets no baseline
+// (replace policy only).
+func c18GenBuilderP(r *kit.Rand, i int, noBase float64) c18Case {
 	c := c18Case{
 		Policy:    i % 2,
 		OrderSeed: r.Uint64(),
@@ -823,6 +827,9 @@ func c18GenBuilder(r *kit.Rand, i int) c18Case {
 	}
 	if kit.Thorough() {
 		c.Orders = 20
+	}
+	if noBase > 0 {
+		c.Policy = 0
 	}
 	c.TableKeys = kit.Pick(r, [][]string{{}, {"goos"}, {"goos"}, {"goos", "goarch"}, {"goos", "goarch"}})
 	tabVals := [][]string{{"linux", "darwin", ""}, {"amd64", "arm64", ""}}
@@ -926,7 +933,10 @@ func c18GenBuilder(r *kit.Rand, i int) c18Case {
 						nnum++
 					}
 				}
-				// a baseline for every trial (always present in this class)
+				// a baseline for every trial (always present in the builder class)
+				if noBase > 0 && r.Chance(noBase) {
+					continue
+				}
 				for k := r.Range(1, 4); k > 0; k-- {
 					c.Results = append(c.Results, mk(b, tab, e, "base", -1, units))
 				}
@@ -1177,6 +1187,12 @@ func TestVerifC18(t *testing.T) {
 			Name: "builder", Quick: 600, Thorough: 12000,
 			Gen: c18GenBuilder, Check: c18CheckBuilder, NonTrivial: c18NonTrivialBuilder, MinNonTrivial: 300,
 			Rule: "result sets over 1-3 units, 0-2 table keys, 2-5 benchmarks, 2-7 experiments (distinct instants, any accepted spelling), 2-6 series stamps with one numerator hash each (stamp spelled differently from result to result), 1-2 denominator hashes, both roles plus ignored roles, 1-4 files; added to fresh builders in 6 (quick) / 20 (thorough) insertion orders, directly or through the text reader; both duplicate policies. Non-trivial = at least 2 points, at least one with repeated experiments",
+		},
+		kit.Class[c18Case]{
+			Name: "builder-missing-baseline", Quick: 300, Thorough: 4000,
+			Gen:  func(r *kit.Rand, i int) c18Case { return c18GenBuilderP(r, i, 0.3) },
+			Check: c18CheckBuilder, NonTrivial: c18NonTrivialBuilder, MinNonTrivial: 100,
+			Rule: "as builder, replace policy only, but 30% of the (benchmark, experiment) trials have no baseline measurements",
 		},
 		kit.Class[c18BootCase]{
 			Name: "bootstrap", Quick: 6000, Thorough: 150000,
